@@ -15,7 +15,9 @@ class Prop:
     rule = ("runs of the real device from ONE PRNG: 1-3 peers with sessions, 2000 packets per direction at the same time, bind/TUN "
             "batch sizes {1,2,7,16,32,64,128}, injection chunks 1..256, packet sizes 36..1400 mixed, GOMAXPROCS {1,2,3,4,8,16}, "
             "0/2/6 CPU hogs, random sleeps in Bind.Send / receive / TUN Read / TUN Write gates, every 6th run a slow consumer with "
-            "one-packet containers so that the 1024-deep per-peer queues fill; non-trivial = quiescent run with at least 500 "
+            "one-packet containers so that the 1024-deep per-peer queues fill, every 6th run starts with Down / TUN packets for configured "
+            "peers while down / Up before the sessions, every 6th run removes one of 2-3 peers (UAPI remove=true) in the middle of a flood "
+            "of 1300..1400-byte packets at GOMAXPROCS 1..3 (the removed peer's lanes only have to be prefixes); non-trivial = quiescent run with at least 500 "
             "packets emitted in each direction; distinct by configuration hash")
     assumptions = ["Go channels are FIFO queues, sync.Mutex Lock/Unlock and goroutine scheduling are those of the transition system "
                    "Pipeline/Model.v (sequentially consistent atomic steps); the theorems are about that system",
@@ -47,6 +49,8 @@ class Prop:
         self.extra_coverage = {
             "discarded_slow_scenarios": sum(1 for c in cases if not c["quiet"]),
             "runs_with_error": sum(1 for c in cases if c["info"].get("error")),
+            "runs_with_down_up_prelude": sum(1 for c in cases if c["cfg"].get("down_up")),
+            "runs_with_peer_removed_mid_traffic": sum(1 for c in cases if c["cfg"].get("remove")),
             "runs_crashed": sum(1 for c in cases if c["info"].get("crash")),
             "datagrams_sent": sum(c["info"].get("datagrams", 0) for c in cases),
             "packets_written": sum(c["info"].get("written", 0) for c in cases),
@@ -83,7 +87,7 @@ class Prop:
         outs = vlib.run_case_files(files)
         self.last_rerun = meta["cases"]
         for c, r in zip(cases, meta["cases"]):
-            c["out"], c["in"], c["quiet"], c["info"] = r["out"], r["in"], r["quiet"], r["info"]
+            c["out"], c["in"], c["quiet"], c["info"], c["removed"] = r["out"], r["in"], r["quiet"], r["info"], r.get("removed", -1)
         return self._fails(meta["shards"], files, outs)
 
     def shrink_candidates(self, case):
@@ -101,27 +105,30 @@ class Prop:
     def signature(self, case, f):
         if (case.get("info") or {}).get("crash"):
             return "device-crashed-or-hung-during-run"
+        if (case.get("info") or {}).get("error"):
+            return "pipeline-could-not-be-set-up"
         sig = []
-        for l in case.get("out") or []:
+        rm = case.get("removed", -1)
+        for li, l in enumerate(case.get("out") or []):
             seqs = [s + i for (c, s, n) in (l.get("sent") or []) for i in range(n)]
             ctrs = [c + i for (c, s, n) in (l.get("sent") or []) for i in range(n)]
             if l["bad"]:
                 sig.append("outbound-unprocessed-or-foreign-datagram")
             if len(set(seqs)) != len(seqs):
                 sig.append("outbound-duplicate")
-            elif case.get("quiet") and len(seqs) < l["n"]:
+            elif case.get("quiet") and len(seqs) < l["n"] and li != rm:
                 sig.append("outbound-lost")
             if seqs != sorted(seqs):
                 sig.append("outbound-reordered")
             if any(a >= b for a, b in zip(ctrs, ctrs[1:])):
                 sig.append("outbound-counters-not-increasing")
-        for l in case.get("in") or []:
+        for li, l in enumerate(case.get("in") or []):
             seqs = [s + i for (s, n) in (l.get("wr") or []) for i in range(n)]
             if l["bad"]:
                 sig.append("inbound-unprocessed-packet")
             if len(set(seqs)) != len(seqs):
                 sig.append("inbound-duplicate")
-            elif case.get("quiet") and len(seqs) < l["n"]:
+            elif case.get("quiet") and len(seqs) < l["n"] and li != rm:
                 sig.append("inbound-lost")
             if seqs != sorted(seqs):
                 sig.append("inbound-reordered")
